@@ -38,7 +38,7 @@ pub fn check() -> PropertyCheck {
         assumptions: vec!["SimSocket models the socket layer"],
         subs: vec![Box::new(Pbt {
             name: "table-e2e",
-            quick: 50_000,
+            quick: 120_000,
             thorough: 2_000_000,
             strat,
             test,
